@@ -11,6 +11,7 @@ pub mod c09;
 pub mod c10;
 pub mod c11;
 pub mod c12;
+pub mod c15;
 pub mod c19;
 
 pub struct Prop {
@@ -32,6 +33,8 @@ pub static PROPS: &[Prop] = &[
 	Prop { id: "C10", run: c10::run, replay: c10::replay },
 	Prop { id: "C11", run: c11::run, replay: c11::replay },
 	Prop { id: "C12", run: c12::run, replay: c12::replay },
+	Prop { id: "C15", run: c15::run_c15, replay: c15::replay_c15 },
+	Prop { id: "C16", run: c15::run_c16, replay: c15::replay_c16 },
 	Prop { id: "C19", run: c19::run, replay: c19::replay },
 ];
 
